@@ -1,3 +1,5 @@
 import PfVerif.Audit.Tool
 import PfVerif.Props.C15
+import PfVerif.Lemmas.C15Num
 #audit_module PfVerif.Props.C15
+#audit_module_ns PfVerif.Lemmas.C15Num PfVerif.C15Num
